@@ -47,9 +47,9 @@ func stallPoints(stack string) []string {
 	case "tls":
 		return append([]string{"tls-nothing", "tls-hello-k", "tls-hello-k"}, post...)
 	case "pp":
-		return append([]string{"pp-nothing", "pp-k", "pp-k"}, post...)
+		return append([]string{"pp-nothing", "pp-k", "pp-k", "pp-late"}, post...)
 	case "pp+tls":
-		return append([]string{"pp-nothing", "pp-k", "tls-nothing", "tls-hello-k"}, post...)
+		return append([]string{"pp-nothing", "pp-k", "pp-late", "tls-nothing", "tls-hello-k"}, post...)
 	case "mitm":
 		return append([]string{"mitm-nothing", "mitm-hello-k", "mitm-hello-k"}, post...)
 	case "plain-shortidle":
@@ -242,6 +242,19 @@ func (e *c15Env) stall(stack string, s C15Stall, vid string) (r stallResult) {
 		case "pp-k":
 			r.limit, r.name = c15PP, "proxy-protocol header timeout"
 			send([]byte(ppLine[:clampK(len(ppLine))]))
+			wait()
+			return
+		case "pp-late":
+			// the header arrives late but in time (60-160 ms into a 250 ms limit), then nothing: the next phase - the
+			// TLS handshake, or the wait for a request - has its whole limit from there on
+			time.Sleep(time.Duration(60+s.K%101) * time.Millisecond)
+			r.ref = time.Now() // the earliest instant the proxy can have the complete header
+			send([]byte(ppLine))
+			if hasTLS {
+				r.limit, r.name = c15TLS, "tls-handshake-timeout (after a late PROXY header)"
+			} else {
+				r.limit, r.name = idleLimit, "idle-timeout (after a late PROXY header)"
+			}
 			wait()
 			return
 		}
